@@ -85,6 +85,15 @@ ConfFF(op, a, o) ==
          ELSE IsNone(o)
     [] op = "ff.universal_labels" ->
          IF UniversalDefined(a.q, a.h) THEN IsSome(o) /\ IsUniversal(a.q, a.h, o.val) ELSE IsNone(o)
+    [] op = "sf.coproduct" -> ValIs(o, a.a \o a.b)
+    [] op = "sf.add" -> OptIs(o, TRUE, a.a \o a.b)
+    [] op = "sf.singleton" -> ValIs(o, <<a.x>>)
+    [] op = "sf.zero" -> ValIs(o, <<>>)
+    [] op = "sf.len" -> ValIs(o, Len(a.a))
+    [] op = "sfa.compose" -> OptIs(o, SFAComposeDefined(a.f, a.g), IF SFAComposeDefined(a.f, a.g) THEN SFACompose(a.f, a.g) ELSE 0)
+    [] op = "sfa.source" -> ValIs(o, SFASource(a.f))
+    [] op = "sfa.target" -> ValIs(o, SFATarget(a.f))
+    [] op = "sfa.identity" -> ValIs(o, SFAIdentity(a.obj))
     [] op = "ff.compose_semifinite" -> OptIs(o, a.f.target = Len(a.labels), IF a.f.target = Len(a.labels) THEN Thru(a.f.table, a.labels) ELSE 0)
     [] OTHER -> FALSE
 
@@ -461,7 +470,7 @@ ConfLax(op, st, a, o) ==
 
 (* =========================================================== dispatch *)
 ArrOps == {"arr.add", "arr.add_const", "arr.arange", "arr.argsort", "arr.bincount", "arr.concatenate", "arr.concatenate_s", "arr.connected_components", "arr.cumulative_sum", "arr.empty", "arr.fill", "arr.fill_s", "arr.from_slice", "arr.gather", "arr.gather_s", "arr.get", "arr.get_range", "arr.get_range_s", "arr.is_empty", "arr.len", "arr.max", "arr.mul_constant_add", "arr.quot_rem", "arr.repeat", "arr.scatter", "arr.scatter_assign", "arr.scatter_assign_constant", "arr.scatter_s", "arr.scatter_sub_assign", "arr.segmented_arange", "arr.segmented_sum", "arr.set_range", "arr.sort_by", "arr.sparse_bincount", "arr.sub", "arr.sum", "arr.to_range", "arr.zero"}
-FFOps == {"ff.coequalizer", "ff.coequalizer_universal", "ff.compose", "ff.compose_semifinite", "ff.compose_shr", "ff.constant", "ff.coproduct", "ff.coproduct_add", "ff.cumulative_sum", "ff.eq", "ff.identity", "ff.initial", "ff.inj0", "ff.inj1", "ff.inject0", "ff.inject1", "ff.injections", "ff.is_injective", "ff.new", "ff.source", "ff.target", "ff.tensor", "ff.tensor_bitor", "ff.terminal", "ff.to_initial", "ff.transpose", "ff.twist", "ff.universal_labels"}
+FFOps == {"sf.coproduct", "sf.add", "sf.singleton", "sf.zero", "sf.len", "sfa.compose", "sfa.source", "sfa.target", "sfa.identity", "ff.coequalizer", "ff.coequalizer_universal", "ff.compose", "ff.compose_semifinite", "ff.compose_shr", "ff.constant", "ff.coproduct", "ff.coproduct_add", "ff.cumulative_sum", "ff.eq", "ff.identity", "ff.initial", "ff.inj0", "ff.inj1", "ff.inject0", "ff.inject1", "ff.injections", "ff.is_injective", "ff.new", "ff.source", "ff.target", "ff.tensor", "ff.tensor_bitor", "ff.terminal", "ff.to_initial", "ff.transpose", "ff.twist", "ff.universal_labels"}
 ICOps == {"ic.coproduct_ff", "ic.coproduct_sf", "ic.elements_ff", "ic.elements_sf", "ic.flatmap", "ic.flatmap_sources_ff", "ic.flatmap_sources_sf", "ic.from_semifinite_ff", "ic.from_semifinite_sf", "ic.indexed_values_ff", "ic.indexed_values_sf", "ic.initial", "ic.iter_ff", "ic.iter_sf", "ic.iter_slices", "ic.len_ff", "ic.map_indexes_ff", "ic.map_indexes_sf", "ic.map_semifinite", "ic.map_values", "ic.new_ff", "ic.new_sf", "ic.singleton_ff", "ic.singleton_sf", "ic.tensor", "ops.iter", "ops.len", "ops.new", "ops.singleton"}
 StrictOps == {"hyper.coequalize_vertices", "hyper.coproduct", "hyper.coproduct_add", "hyper.discrete", "hyper.empty", "hyper.in_degree", "hyper.is_acyclic", "hyper.is_discrete", "hyper.new", "hyper.out_degree", "hyper.tensor_operations", "law.assoc", "law.dagger_compose", "law.dagger_tensor", "law.hexagon", "law.interchange", "law.spider_fusion", "law.tensor_assoc", "law.tensor_unit", "law.twist_inverse", "law.twist_natural", "law.unit", "strict.compose", "strict.compose_shr", "strict.dagger", "strict.half_spider", "strict.identity", "strict.is_acyclic", "strict.is_monogamous", "strict.new", "strict.singleton", "strict.source", "strict.spider", "strict.target", "strict.tensor", "strict.tensor_bitor", "strict.tensor_operations", "strict.twist", "strict.unit"}
 GraphOps == {"arrow.is_convex_subgraph", "arrow.is_monomorphism", "arrow.new", "hook.converse", "hook.indegree", "hook.kahn", "hook.node_adjacency", "hook.operation_adjacency", "strict.eval", "strict.layer", "strict.layered_operations"}
